@@ -14,7 +14,9 @@ import NeumannModel.Snap.Model
                                        snapshot merges first, restore re-inserts every edge under its id)
     tensor_store/src/blob_log.rs      (segments + index + garbage marks; snapshot leaves the marks out)
     tensor_store/src/lib.rs           (restore_from_bytes: clear + re-put of every scanned key;
-                                       save/load_snapshot_compressed: scan + get, fresh store + put)
+                                       save/load_snapshot_compressed: scan + get, fresh store + put;
+                                       `TensorStore` = router + optional Bloom filter consulted by
+                                       get / exists before the router: `TStore` at the end of this file)
     tensor_store/src/snapshot.rs      (load_v2: a key → value map put key by key)
   Maps (`BTreeMap`, `HashMap`, `HashSet`) are association lists: the harness canonicalises iteration
   order, and no result of the code depends on it. The relational slab's snapshot is a clone of its
@@ -682,5 +684,111 @@ def decompressEntry (ttRecon : List Nat → List Nat) (fields : List (Name × CV
 /-- `load_snapshot_compressed`: a fresh store and `put` of every entry -/
 def loadQuant (ttRecon : List Nat → List Nat) (cfg : RouterCfg) (entries : List (Name × List (Name × CValue))) : Router :=
   entries.foldl (fun r p => r.put p.1 (decompressEntry ttRecon p.2) 0) (Router.new cfg)
+
+/-! ## the store in front of the router: the optional Bloom filter (lib.rs `TensorStore`)
+
+  `TensorStore { router, bloom_filter: Option<..> }`. The constructors `with_bloom_filter`,
+  `with_default_bloom_filter`, `with_bloom_and_instrumentation`, `open_durable_with_bloom` build an
+  empty filter; the loaders `load_snapshot_with_bloom_filter` and `recover_with_bloom` build one and
+  add every key `scan("")` of the loaded router lists; every other constructor / loader has none.
+  `put` adds the key and then goes to the router; `get` / `exists` ask the filter first and answer
+  `NotFound` / `false` from the filter alone when it says "definitely absent"; `delete` and `scan` do
+  not look at it; `clear` clears both. A Bloom filter never forgets an added key until it is cleared
+  and may answer "maybe" for any other key: the filter is the list of the keys added since the last
+  clear, and its false positives are an arbitrary function `fp` of that content and the asked key. -/
+
+structure TStore where
+  router : Router
+  filter : Option (List Name)
+  deriving DecidableEq, Repr
+
+/-- `BloomFilter::might_contain` -/
+def mightContain (fp : List Name → Name → Bool) (added : List Name) (key : Name) : Bool :=
+  decide (key ∈ added) || fp added key
+
+/-- the filter's fast path of `get` / `exists`: `true` = go on to the router -/
+def TStore.passes (fp : List Name → Name → Bool) (s : TStore) (key : Name) : Bool :=
+  match s.filter with
+  | none => true
+  | some added => mightContain fp added key
+
+/-- `TensorStore::new` (`bloom = false`) / `with_bloom_filter` and its siblings (`bloom = true`) -/
+def TStore.new (cfg : RouterCfg) (bloom : Bool) : TStore := ⟨Router.new cfg, if bloom then some [] else none⟩
+
+/-- `filter.add(key)` when there is a filter -/
+def TStore.tell (s : TStore) (key : Name) : Option (List Name) := s.filter.map (fun added => key :: added)
+
+/-- `TensorStore::put` -/
+def TStore.put (s : TStore) (key : Name) (value : TData) (victim : Nat) : TStore :=
+  ⟨s.router.put key value victim, s.tell key⟩
+
+/-- the value `TensorStore::get` returns -/
+def TStore.get (fp : List Name → Name → Bool) (s : TStore) (key : Name) : Option TData :=
+  if s.passes fp key then s.router.peek key else none
+
+/-- the state after `TensorStore::get` (a cache hit bumps the access count; not when the filter answers) -/
+def TStore.touch (fp : List Name → Name → Bool) (s : TStore) (key : Name) : TStore :=
+  if s.passes fp key then { s with router := s.router.touch key } else s
+
+/-- `TensorStore::exists` -/
+def TStore.exists (fp : List Name → Name → Bool) (s : TStore) (key : Name) : Bool :=
+  s.passes fp key && s.router.exists key
+
+/-- `TensorStore::delete`: the router only; the filter keeps the key (it cannot forget) -/
+def TStore.delete (s : TStore) (key : Name) : TStore × Bool :=
+  ((⟨(s.router.delete key).1, s.filter⟩ : TStore), (s.router.delete key).2)
+
+/-- `TensorStore::scan`: the router only -/
+def TStore.scan (s : TStore) (pre : Name) : List Name := s.router.scan pre
+
+/-- `TensorStore::clear` -/
+def TStore.clear (s : TStore) : TStore := ⟨s.router.clear, s.filter.map (fun _ => [])⟩
+
+/-- one turn of the loop of `restore_from_bytes`: a key `get` finds in the decoded router is told to
+    the filter (`tell = true`: the code since cb3c5db0; `false`: the code before) and put through the
+    router directly -/
+def TStore.restoreStep (tell : Bool) (new : Router) (t : TStore) (key : Name) : TStore :=
+  match new.peek key with
+  | some v => ⟨t.router.put key v 0, if tell then t.tell key else t.filter⟩
+  | none => t
+
+/-- the router is cleared, the filter is NOT (keys the store held before stay in it: harmless, the
+    filter only ever answers "definitely absent") -/
+def TStore.restoreStart (s : TStore) : TStore := ⟨s.router.clear, s.filter⟩
+
+def TStore.restoreWith (tell : Bool) (s : TStore) (new : Router) (order : List Name) : TStore :=
+  order.foldl (TStore.restoreStep tell new) s.restoreStart
+
+/-- `TensorStore::restore_from_bytes` (after `SlabRouter::from_bytes` gave `new`; `order` = its `scan("")`) -/
+def TStore.restoreFromBytes (s : TStore) (new : Router) (order : List Name) : TStore :=
+  TStore.restoreWith true s new order
+
+/-- NOT the code any more: `restore_from_bytes` before cb3c5db0 never told the filter -/
+def TStore.restoreFromBytesOld (s : TStore) (new : Router) (order : List Name) : TStore :=
+  TStore.restoreWith false s new order
+
+/-- `load_snapshot` / `load_snapshot_compressed` / `recover`: no filter -/
+def TStore.load (r : Router) : TStore := ⟨r, none⟩
+
+/-- `load_snapshot_with_bloom_filter` / `recover_with_bloom`: a new filter and `add` of every key of
+    `router.scan("")` (`order`, as the hash set yields it) -/
+def TStore.loadWithBloom (r : Router) (order : List Name) : TStore :=
+  ⟨r, some (order.foldl (fun added key => key :: added) [])⟩
+
+inductive TOp where
+  | put (key : Name) (val : TData) (victim : Nat)
+  | delete (key : Name)
+  | get (key : Name)
+  | clear
+  | restore (new : Router) (order : List Name)
+
+def TStore.apply (fp : List Name → Name → Bool) (s : TStore) : TOp → TStore
+  | .put k v victim => s.put k v victim
+  | .delete k => (s.delete k).1
+  | .get k => s.touch fp k
+  | .clear => s.clear
+  | .restore new order => s.restoreFromBytes new order
+
+def TStore.run (fp : List Name → Name → Bool) (s : TStore) (ops : List TOp) : TStore := ops.foldl (TStore.apply fp) s
 
 end Neumann.Snap
